@@ -24,7 +24,7 @@ CFGS = {
 }
 DEPTH = {'quick': {'default': (3, 6), 'small': (3, 5), 'retry10': (3, 5)}, 'thorough': {'default': (4, 8), 'small': (4, 8), 'retry10': (4, 8)}}
 PARTS = {'quick': 4, 'thorough': 5}
-WALKS = {'quick': (96, 250), 'thorough': (3200, 600)}
+WALKS = {'quick': (256, 250), 'thorough': (3200, 600)}
 BUDGET = {'quick': 50, 'thorough': 1000}
 PEER_HOLDS = [90, 0, 3, 180]
 _fresh = {}
